@@ -103,6 +103,8 @@ CONFIGS = [
     dict(name='ext2-1k-nodirindex-legacyhash', fstype='ext2', bs=1024, blocks=8193, features=['^dir_index'], extra=['-g', '2048']),
     dict(name='ext4-1k-oddtail', fstype='ext4', bs=1024, blocks=20004, features=[], extra=[]),          # last group of 3619 blocks: not a multiple of 8
     dict(name='ext2-1k-8192', fstype='ext2', bs=1024, blocks=8192, features=[], extra=[]),               # one group of 8191 blocks
+    # 3 groups x 232 inodes: 58 inode-table blocks per group (not a multiple of the 8-block inode scan buffer), the larger populations spill into groups 1 and 2
+    dict(name='ext4-1k-3groups-oddtable', fstype='ext4', bs=1024, blocks=24577, features=[], extra=['-N', '696']),
     dict(name='ext2-2k-rev0ish', fstype='ext2', bs=2048, blocks=4096, features=['^resize_inode', '^ext_attr', '^dir_index', '^sparse_super', '^large_file'], extra=[]),
 ]
 # MMP makes every tool run sleep for the update interval: kept out of the general sweeps, used by C13 only
